@@ -50,7 +50,9 @@ PKG_V1 = {"pkg/__init__.py": '"""Pkg v1."""\nfrom pkg.a import f\nVALUE = 1\n', 
 PKG_V2 = {"pkg/__init__.py": '"""Pkg v2."""\nfrom pkg.a import f\nVALUE = 2\n', "pkg/a.py": 'def f(x):\n    """Doc f."""\n    return x\n'}
 WRITER = "import os\nopen(os.path.join(os.path.dirname(__file__), 'written_at_import.txt'), 'w').close()\n"
 HISTORIES = ["plain", "slash-branch", "detached", "user-worktree", "dirty", "syntax-error-in-old", "absent-in-old", "writes-at-import", "stash", "user-griffe-branches", "user-worktrees-named-like-refs"]
-OPS = ["load-static", "load-inspect", "load-extension", "load-unknown-ref", "load-slash-branch", "check", "check-base-ref", "load-relative-repo-chdir", "diff-explain-cwd-tmpdir"]
+OPS = ["load-static", "load-inspect", "load-extension", "load-unknown-ref", "load-slash-branch", "check", "check-base-ref", "load-relative-repo-chdir", "diff-explain-cwd-tmpdir",
+       # three loads in a row with one loader-less API: the old tag, the branch, the old tag again (what the first load left behind must not show in the third)
+       "load-v1-main-v1"]
 
 
 def _git(args, cwd, check=True):
@@ -269,6 +271,14 @@ def operate(griffe, op, repo, inj):
         return griffe.load_git("pkg", ref="v1", repo=repo, force_inspection=True)
     if op == "load-extension":
         return griffe.load_git("pkg", ref="v1", repo=repo, allow_inspection=False, extensions=griffe.load_extensions(make_extension(griffe, inj)))
+    if op == "load-v1-main-v1":
+        first = griffe.load_git("pkg", ref="v1", repo=repo, allow_inspection=False)
+        second = griffe.load_git("pkg", ref="main", repo=repo, allow_inspection=False)
+        third = griffe.load_git("pkg", ref="v1", repo=repo, allow_inspection=False)
+        docs = [m.docstring.value if m.docstring else None for m in (first, second, third)]
+        if docs != ["Pkg v1.", "Pkg v2.", "Pkg v1."] or "gone" in second["a"].members or "def f(x, y=1)" not in first["a.f"].source or "def f(x):" not in second["a.f"].source:
+            raise AssertionError(f"three loads (v1, main, v1) returned the trees {docs}")
+        return third
     if op == "load-unknown-ref":
         return griffe.load_git("pkg", ref="no-such-ref", repo=repo, allow_inspection=False)
     if op == "diff-explain-cwd-tmpdir":
@@ -333,6 +343,8 @@ def applicable(history, op):
         return history in ("plain", "dirty")
     if op == "load-unknown-ref":
         return history in ("plain", "dirty")
+    if op == "load-v1-main-v1":
+        return history in ("plain", "dirty", "user-worktree", "detached")
     if op == "check":
         return history in ("plain", "dirty", "syntax-error-in-old", "absent-in-old", "detached", "user-worktree")
     return True
@@ -412,7 +424,7 @@ def run_once(griffe, history, op, plan, template, baseline_leaks=()):
                             viols.append(("unusable/source", f"source of pkg.a.f unavailable after the checkout was removed: {fobj.source!r}"))
                     result.as_json(full=True)
                     # "loading a package from a Git reference": what comes back is the package AT that reference, not the working tree's
-                    if op in ("load-static", "load-inspect", "load-extension", "load-relative-repo-chdir") and history != "absent-in-old":
+                    if op in ("load-static", "load-inspect", "load-extension", "load-relative-repo-chdir", "load-v1-main-v1") and history != "absent-in-old":
                         doc = result.docstring.value if result.docstring else None
                         if doc != "Pkg v1." or (fobj is not None and "y=1" not in fobj.source) or ("a" in result.members and "gone" not in result["a"].members):
                             viols.append((f"not-the-ref/{op}", f"{op} on '{history}' (ref v1) returned docstring {doc!r}, members of pkg.a {sorted(result['a'].members) if 'a' in result.members else None}: not the tree at v1"))
